@@ -68,9 +68,10 @@ ChooseEdit(sd, i, m) ==
     [] op = "col_default"  -> [op |-> op, t |-> t, c |-> c, df |-> ModelDefault(Pick(sd, K(50 + i, 0, 5), Defaults))]
     [] op = "col_note"     -> [op |-> op, t |-> t, c |-> c, v |-> Pick(sd, K(50 + i, 0, 5), NewTexts)]
     [] op = "enum_name"    -> IF m.enums = <<>> THEN skip ELSE [op |-> op, e |-> Num(sd, K(50 + i, 0, 5), 1, Len(m.enums)), v |-> fresh]
-    [] op = "ref_type"     -> IF nonm2m = <<>> THEN skip
-                              ELSE [op |-> op, r |-> Pick(sd, K(50 + i, 0, 5), nonm2m), v |-> Pick(sd, K(50 + i, 0, 6), <<">", "<", "-">>)]
-    [] op = "ref_inline"   -> IF nonm2m = <<>> THEN skip ELSE [op |-> op, r |-> Pick(sd, K(50 + i, 0, 5), nonm2m), b |-> Coin(sd, K(50 + i, 0, 6), 50)]
+    \* any reference may change its kind, many-to-many included, and carry the inline flag while it is many-to-many
+    [] op = "ref_type"     -> IF m.refs = <<>> THEN skip
+                              ELSE [op |-> op, r |-> Num(sd, K(50 + i, 0, 5), 1, Len(m.refs)), v |-> Pick(sd, K(50 + i, 0, 6), <<">", "<", "-", "<>", ">">>)]
+    [] op = "ref_inline"   -> IF m.refs = <<>> THEN skip ELSE [op |-> op, r |-> Num(sd, K(50 + i, 0, 5), 1, Len(m.refs)), b |-> Coin(sd, K(50 + i, 0, 6), 50)]
     [] op = "ref_name"     -> IF m.refs = <<>> THEN skip ELSE [op |-> op, r |-> Num(sd, K(50 + i, 0, 5), 1, Len(m.refs)), v |-> IF Coin(sd, K(50 + i, 0, 6), 30) THEN "" ELSE fresh]
     [] op = "ref_actions"  -> IF m.refs = <<>> THEN skip
                               ELSE [op |-> op, r |-> Num(sd, K(50 + i, 0, 5), 1, Len(m.refs)), u |-> Pick(sd, K(50 + i, 0, 6), Actions), d |-> Pick(sd, K(50 + i, 0, 7), Actions)]
@@ -110,8 +111,18 @@ Run(sd, i, n, m) ==
 CONSTANT MaxEdits
 NEdits(sd) == Num(sd, 49, 1, MaxEdits)
 DocOf(sd) == IF WithComments THEN Commented(sd, RandDocP(sd, WithProps)) ELSE RandDocP(sd, WithProps)
-HistoryOf(sd) == IF WellFormed(DocOf(sd)) THEN Run(sd, 1, NEdits(sd), TLCEval(ParseDoc(DocOf(sd), WithProps))) ELSE <<>>
-Model0 == ParseDoc(TheDoc, WithProps)
+\* A reference REMEMBERS the inline flag it was given even while it is many-to-many (where the flag has no effect and the
+\* public property reads FALSE): re-typed to > < - it is inline again.  In this module refs[i].inline is that remembered
+\* flag; Eff gives what an observer sees.  A parsed reference remembers how it was declared.
+Stored(m, doc) == IF m.kind # "db" THEN m
+                  ELSE [m EXCEPT !.refs = [i \in DOMAIN m.refs |-> [m.refs[i] EXCEPT !.inline = CollectedRefs(doc)[i].inline]]]
+Eff(m) == IF m.kind # "db" THEN m
+          ELSE [m EXCEPT !.refs = [i \in DOMAIN m.refs |-> [m.refs[i] EXCEPT !.inline = m.refs[i].inline /\ m.refs[i].type # "<>"]]]
+StoredModelOf(sd) == TLCEval(Stored(ParseDoc(DocOf(sd), WithProps), DocOf(sd)))
+HistoryOf(sd) == IF WellFormed(DocOf(sd)) THEN Run(sd, 1, NEdits(sd), StoredModelOf(sd)) ELSE <<>>
+Model0 == Stored(ParseDoc(TheDoc, WithProps), TheDoc)
+\* design level: what is observable of the stored model is exactly what the parser model says
+StoredIsParsed == WellFormed(TheDoc) => Eff(Model0) = ParseDoc(TheDoc, WithProps)
 History == HistoryOf(seed)
 \* design level: an edit touches only what it names (sizes of the other lists are kept)
 EditsLocalOn(h, m0) == \A i \in DOMAIN h : h[i].after.kind = "db" /\ Len(h[i].after.tables) = Len(m0.tables) /\ Len(h[i].after.refs) = Len(m0.refs)
